@@ -42,11 +42,12 @@ def reconstruct(data, attachments):
     if isinstance(data, list):
         return [reconstruct(x, attachments) for x in data]
     if isinstance(data, dict):
-        if data.get('_placeholder') is True and \
-                isinstance(data.get('num'), int) and \
-                not isinstance(data.get('num'), bool):
-            n = data['num']
-            if 0 <= n < len(attachments):
+        if data.get('_placeholder') is True:
+            # reference parser: the index must be a number naming one of
+            # the attachments, anything else is "illegal attachments"
+            n = data.get('num')
+            if isinstance(n, int) and not isinstance(n, bool) and \
+                    0 <= n < len(attachments):
                 return attachments[n]
             raise Reject('illegal attachment index')
         return {k: reconstruct(v, attachments) for k, v in data.items()}
